@@ -150,6 +150,36 @@ let () =
         let ws = held_at_waits (all_held heldl) (acts h) in
         print_endline ("waits " ^ String.concat ";" (Stdlib.List.map (fun (i, op) ->
             string_of_int (int_of_nat i) ^ ":" ^ String.concat "," (Stdlib.List.map (fun (a, b) -> string_of_int (int_of_nat a) ^ "." ^ string_of_int (int_of_nat b)) op)) ws))
+      | ["winc"; pi; po; pe; input; prog; phases] ->
+        (* the thread-based communicator: all result sequences of a script *)
+        let b x = (x = "1") in
+        let tail s k = String.sub s k (String.length s - k) in
+        let cop o = match String.split_on_char ':' o with
+          | ["w"; "o"; u] -> CommK.CWrite (Comm.SOut, dec_units u)
+          | ["w"; "e"; u] -> CommK.CWrite (Comm.SErr, dec_units u)
+          | ["r"; n] -> CommK.CRead (nat_of_int (int_of_string n))
+          | ["c"; "o"] -> CommK.CCloseS Comm.SOut
+          | ["c"; "e"] -> CommK.CCloseS Comm.SErr
+          | ["c"; "i"] -> CommK.CCloseS Comm.SIn
+          | _ -> failwith "cop" in
+        let ph p = if p.[0] = 'c' then WinSim.PhChild (nat_of_int (int_of_string (tail p 1)))
+          else (match String.split_on_char ':' (tail p 1) with
+              | [l; d] -> WinSim.PhRead ((if l = "-" then None else Some (nat_of_int (int_of_string l))), d = "1")
+              | _ -> failwith "phase") in
+        let progl = if prog = "none" then [] else Stdlib.List.map cop (String.split_on_char ';' prog) in
+        let phl = Stdlib.List.map ph (String.split_on_char ';' phases) in
+        (* the stdin pipe is one page (the driver sets it so); the output pipes keep the default 64 KiB *)
+        let s0 = WinComm.winit (b pi) (b po) (b pe) (nat_of_int 4096) (nat_of_int 65536) (nat_of_int 65536) progl (dec_units input) in
+        let show_o = function
+          | WinSim.OBlocked -> "blocked"
+          | WinSim.ORet ((r, o), e) ->
+            let k = (match r with WinComm.WOk -> "ok" | WinComm.WTimedOut -> "timedout" | WinComm.WErr e -> "err:" ^ string_of_int (int_of_n e)) in
+            let so = function None -> "none" | Some l -> enc_units l in
+            k ^ ":" ^ so o ^ ":" ^ so e in
+        let outs = WinSim.run_script (nat_of_int 64) phl s0 [] in
+        let strs = Stdlib.List.sort_uniq compare (Stdlib.List.map (fun ((os, got), eof) ->
+            String.concat "," (Stdlib.List.map show_o os) ^ "|" ^ enc_units got ^ "|" ^ b2s eof) outs) in
+        print_endline (if strs = [] then "none" else String.concat " || " strs)
       | _ -> print_endline "?"
     done
   with End_of_file -> ()
